@@ -1159,6 +1159,45 @@ fn gen_program(rng: &mut Rng, names: &mut Names, w: &World, g: &GlobalsT, name: 
     s
 }
 
+/// Programs whose top-level block has exactly `len` one-line statements with one forward `JMP`; the
+/// programs of one project have the same length, the label sits at different indices, and the label
+/// name is shared by some and distinct for others.
+fn gen_jump_programs(rng: &mut Rng, names: &mut Names, g: &GlobalsT, count: usize) -> Vec<(String, String)> {
+    let len = 4 + rng.below(4) as usize;
+    let shared_label = names.fresh(rng, "Skip");
+    let mut out = Vec::new();
+    for _ in 0..count {
+        let name = names.fresh(rng, "PrgJ");
+        let x = names.fresh(rng, "j");
+        let label = if rng.bool() { shared_label.clone() } else { names.fresh(rng, "L") };
+        let jump_at = rng.below(len as u64 - 2) as usize;
+        let label_at = jump_at + 1 + rng.below((len - jump_at - 1) as u64) as usize;
+        let mut s = String::new();
+        let _ = writeln!(s, "PROGRAM {name}");
+        let shared = if !g.dints.is_empty() && rng.bool() { Some(rng.pick(&g.dints).clone()) } else { None };
+        if let Some(sh) = &shared {
+            let _ = writeln!(s, "VAR_EXTERNAL\n    {sh} : DINT;\nEND_VAR");
+        }
+        let _ = writeln!(s, "VAR\n    {x} : DINT := {};\nEND_VAR", rng.below(50));
+        for i in 0..len {
+            let body = match (&shared, rng.below(3)) {
+                (Some(sh), 0) => format!("{sh} := ({sh} * 3 + {x} + {}) MOD 100000;", 1 + i),
+                _ => format!("{x} := ({x} + {}) MOD 100000;", [1, 10, 100, 1000, 7, 70, 700, 13][i % 8]),
+            };
+            if i == jump_at {
+                let _ = writeln!(s, "JMP {label};");
+            } else if i == label_at {
+                let _ = writeln!(s, "{label}: {body}");
+            } else {
+                let _ = writeln!(s, "{body}");
+            }
+        }
+        let _ = writeln!(s, "END_PROGRAM\n");
+        out.push((name, s));
+    }
+    out
+}
+
 pub fn gen_case(rng: &mut Rng, cycles: usize) -> CaseInput {
     let mut names = Names { used: Vec::new() };
     // reserved words / standard names the generator must not produce
@@ -1187,9 +1226,18 @@ pub fn gen_case(rng: &mut Rng, cycles: usize) -> CaseInput {
     let g = gen_globals(rng, &mut names, w.scale);
     let nprog = 1 + rng.below(4 + 2 * (w.scale - 1)) as usize;
     let prog_names: Vec<String> = (0..nprog).map(|_| names.fresh(rng, "Prg")).collect();
+    let mut prog_names = prog_names;
     let mut programs = Vec::new();
     for pn in &prog_names {
         programs.push(gen_program(rng, &mut names, &w, &g, pn));
+    }
+    // in half of the projects: 2-3 equally long programs with labels and JMP
+    if rng.bool() {
+        let count = 2 + rng.below(2) as usize;
+        for (n, text) in gen_jump_programs(rng, &mut names, &g, count) {
+            prog_names.push(n);
+            programs.push(text);
+        }
     }
     // configuration: tasks with intervals / priorities, some programs in the background
     let mut conf = String::new();
@@ -1225,24 +1273,26 @@ pub fn gen_case(rng: &mut Rng, cycles: usize) -> CaseInput {
     conf.push_str("END_CONFIGURATION\n");
 
     // distribute over files
+    // relative, directory-qualified labels (some not normalised): what a CLI / bundle build passes
+    let top = *rng.pick(&["plant", "src", "app/st"]);
     let mut units: Vec<(String, String)> = vec![
-        ("types.st".into(), types),
-        ("lib.st".into(), funcs),
-        ("blocks.st".into(), oop),
+        (format!("{top}/types.st"), types),
+        (format!("./{top}/lib.st"), funcs),
+        (format!("{top}/units/../units/blocks.st"), oop),
     ];
     for (i, p) in programs.into_iter().enumerate() {
-        units.push((format!("prog{i}.st"), p));
+        units.push((format!("{top}/programs/prog{i}.st"), p));
     }
     units.push(("config.st".into(), conf));
     let files: Vec<(String, String)> = match layout {
-        0 => vec![("all.st".into(), units.iter().map(|(_, t)| t.as_str()).collect::<Vec<_>>().join("\n"))],
+        0 => vec![(format!("{top}/all.st"), units.iter().map(|(_, t)| t.as_str()).collect::<Vec<_>>().join("\n"))],
         1 => units,
         _ => {
             // two files
             let mid = units.len() / 2;
             vec![
-                ("a.st".into(), units[..mid].iter().map(|(_, t)| t.as_str()).collect::<Vec<_>>().join("\n")),
-                ("b.st".into(), units[mid..].iter().map(|(_, t)| t.as_str()).collect::<Vec<_>>().join("\n")),
+                (format!("{top}/a.st"), units[..mid].iter().map(|(_, t)| t.as_str()).collect::<Vec<_>>().join("\n")),
+                (format!("./{top}/b.st"), units[mid..].iter().map(|(_, t)| t.as_str()).collect::<Vec<_>>().join("\n")),
             ]
         }
     };
@@ -1272,7 +1322,8 @@ pub fn gen_case(rng: &mut Rng, cycles: usize) -> CaseInput {
         trace[at].restart = if rng.bool() { 1 } else { 2 };
     }
     CaseInput {
-        with_paths: rng.bool(),
+        with_paths: rng.chance(2, 3),
+        entry_variant: rng.below(3) as u8,
         files,
         bool_inputs: g.bool_inputs.clone(),
         int_inputs: g.int_inputs.clone(),
